@@ -452,7 +452,7 @@ def run_try(seed, count, shard=50):
         for st in tree.body:
             E.enc_py(st, real)
         if real != enc or nbody != len(tree.body):
-            bad.append({'kind': 'try-tree', 'program': text, 'source': src, 'model_tree': enc, 'real_tree': real})
+            bad.append({'kind': 'try-tree', 'program': text, 'prog': p, 'source': src, 'model_tree': enc, 'real_tree': real})
             continue
         # 2. FLAGS
         try:
@@ -460,7 +460,7 @@ def run_try(seed, count, shard=50):
         except Exception as e:  # noqa: BLE001
             fi = 'RAISED ' + type(e).__name__
         if flags is None or fi != flags:
-            bad.append({'kind': 'try-flags', 'program': text, 'source': src, 'model_flags': flags,
+            bad.append({'kind': 'try-flags', 'program': text, 'prog': p, 'source': src, 'model_flags': flags,
                         'impl_flags': fi, 'concrete': impl_flag_violation_t(p, src, sites, fw, fi)})
             continue
         stats['try_flag_tuples'] += len(flags)
@@ -492,7 +492,7 @@ def run_try(seed, count, shard=50):
                 else:
                     problem = ('every model outcome with this site sequence claims an untouched object the '
                                'run did not see: %r' % [(o[0], o[1], o[3]) for o in cands[:4]])
-                bad.append({'kind': 'try-exec', 'program': text, 'source': src, 'run': run_desc,
+                bad.append({'kind': 'try-exec', 'program': text, 'prog': p, 'source': src, 'run': run_desc,
                             'problem': problem, 'model_outcomes': len(outs)})
                 break
             stats['try_pristine_confirmed'] += best
@@ -520,6 +520,18 @@ def impl_flag_violation_t(prog, src, sites, fw, fi):
                         'problem': 'the walker marks %s of call number %d as forwarded untouched, but executing '
                                    'the wrapper the callee receives something else' % (which, site)}
     return None
+
+
+def replay_try(prog):
+    """replay of a 'try-flags' finding from its 'prog' field (the generator's structure; a JSON
+    round trip -- tuples become lists -- is fine).  -> description of the violation or None"""
+    src, sites, fw = render_t(prog)
+    try:
+        fi = E.impl_flags(ast.parse(src).body[0])
+    except Exception as e:  # noqa: BLE001
+        return 'walker raised ' + type(e).__name__
+    c = impl_flag_violation_t(prog, src, sites, fw, fi)
+    return (c['problem'] + '\n' + c['source']) if c else None
 
 
 if __name__ == '__main__':
